@@ -29,7 +29,7 @@ def bounds(tier):
 
 
 def shards(tier):
-    return [("pat", a, b) for a in range(len(KEYS)) for b in range(len(KEYS))] + [("short", 0), ("ctor", 0), ("leak", 0), ("unicode", 0)] + [("spellings", r) for r in range(16)] + [("longorders", 0)]
+    return [("pat", a, b) for a in range(len(KEYS)) for b in range(len(KEYS))] + [("short", 0), ("construction", 0), ("ctor", 0), ("leak", 0), ("unicode", 0)] + [("spellings", r) for r in range(16)] + [("longorders", 0)]
 
 
 def others():
@@ -380,10 +380,41 @@ def check_spellings(acc, stripe=None):
                     )
 
 
+ORDER_CONFIGS = [("alpha", None, False)] + [("custom", o, cs) for o in (("title", "author"), ("Author", "title"), ("author",), (), ("year", "Title", "author")) for cs in (False, True)] + [("norm", None, False)]
+ORDER_PROBE_KEYS = [("title", "author", "year"), ("Title", "AUTHOR", "author", "year", "note"), ("b", "a", "B", "A"), ()]
+
+
+def order_behaviour(cfg):
+    from bibtexparser.middlewares import NormalizeFieldKeys
+
+    kind, o, cs = cfg
+    if kind == "alpha":
+        m = SortFieldsAlphabeticallyMiddleware(allow_inplace_modification=False)
+    elif kind == "custom":
+        m = SortFieldsCustomMiddleware(order=tuple(o), case_sensitive=cs, allow_inplace_modification=False)
+    else:
+        m = NormalizeFieldKeys(allow_inplace_modification=False)
+    out = []
+    for keys in ORDER_PROBE_KEYS:
+        e = m.transform(Library([Entry("a", "k", [Field(k, str(n)) for n, k in enumerate(keys)])])).blocks[0]
+        out.append([[f.key, f.value] for f in e.fields])
+    return out
+
+def check_construction_order(acc):
+    """mc/order.py: every ordered pair of configurations, against each configuration first in a fresh interpreter."""
+    import sys
+
+    from .. import order
+
+    order.run(sys.modules[__name__], acc, group=lambda cfg: 0)
+
+
 def run_shard(shard, tier, acc):
     if shard[0] == "ctor":
         check_ctor(acc)
         return
+    if shard[0] == "construction":
+        return check_construction_order(acc)
     if shard[0] == "longorders":
         check_long_orders(acc, tier)
         check_shared_fields(acc)
@@ -456,7 +487,9 @@ def run_shard(shard, tier, acc):
 
 
 def replay(case, acc):
-    if "shared_fields" in case:
+    if "construction_order" in case:
+        check_construction_order(acc)
+    elif "shared_fields" in case:
         check_shared_fields(acc)
     elif "long_order" in case:
         check_long_orders(acc, "quick" if (case["long_order"] <= 12 or 20 < case["long_order"] <= 1000) and len(case["keys"]) <= 4 else "thorough")
